@@ -257,6 +257,51 @@ impl Gen {
 		}
 	}
 
+	/// A block that creates exactly as many outputs as it spends: the coinbase plus ONE transaction
+	/// with k inputs and k-1 outputs (k = 2 or 3). A rewind over it restores as many old leaf
+	/// positions as it drops new ones (the cardinality of the leaf set does not change).
+	fn add_balanced(&mut self, rng: &mut Rng, parent: usize, diff: u64) -> Option<usize> {
+		let h = self.kit.blks[parent].height + 1;
+		let mut avail = self.spendable(parent, h);
+		if avail.len() < 2 {
+			return None;
+		}
+		let k = if avail.len() >= 3 && rng.chance(1, 2) { 3 } else { 2 };
+		let mut ins = vec![];
+		for _ in 0..k {
+			let i = rng.below(avail.len() as u64) as usize;
+			ins.push(avail.swap_remove(i));
+		}
+		let total: u64 = ins.iter().map(|o| self.kit.outs[*o].value).sum();
+		let fee = rng.range(1, 3);
+		if total < 20 {
+			return None;
+		}
+		let outputs = if k == 2 {
+			vec![(total - fee, None)]
+		} else {
+			let a = rng.range(1, total - fee - 1);
+			vec![(a, None), (total - fee - a, None)]
+		};
+		let tx = self.kit.build_tx(&TxSpec { inputs: ins, outputs, kernel: KSpec::Plain(fee) }).ok()?;
+		let b = self.kit.assemble(parent, diff, &[tx], 0).ok()?;
+		match self.kit.builder().process_block(b.clone(), grin_chain::Options::SKIP_POW) {
+			Ok(_) => {
+				let st = self.state_after(parent, &b);
+				let id = self.kit.record(b, parent, vec![], true);
+				self.states.insert(id, st);
+				self.valid.push(id);
+				self.stat(&format!("tx:balanced-block-{}-in-{}-out-plus-coinbase", k, k - 1));
+				Some(id)
+			}
+			Err(e) => {
+				self.stat(&format!("generator:builder-rejected:{}", error_class(&e)));
+				complain(format!("balanced block on b{} (height {}): {}", parent, h, error_class(&e)));
+				None
+			}
+		}
+	}
+
 	/// Build an invalid variant on `parent`; returns id.
 	fn add_invalid(&mut self, rng: &mut Rng, parent: usize) -> Option<usize> {
 		let kind = rng.below(N_INVALID_KINDS);
@@ -670,6 +715,15 @@ fn run_history(out: &mut Out, rng: &mut Rng, work: &str, hist: usize, big: bool)
 			trunk.push(id);
 		}
 	}
+	// C15: the last blocks of the trunk create exactly as many outputs as they spend (balanced), so
+	// that rewinds over the head and over 1..3 blocks below it leave the leaf set's cardinality alone
+	for _ in 0..3 {
+		let d = rng.range(2, 5);
+		if let Some(id) = g.add_balanced(rng, tip, d) {
+			tip = id;
+			trunk.push(id);
+		}
+	}
 	let nbranches = rng.range(1, if big { 4 } else { 3 });
 	for _ in 0..nbranches {
 		let start = *rng.pick(&trunk[..trunk.len() - 1]);
@@ -706,6 +760,20 @@ fn run_history(out: &mut Out, rng: &mut Rng, work: &str, hist: usize, big: bool)
 		let p = if rng.chance(1, 5) { 0 } else { *rng.pick(&parents) };
 		g.add_invalid(rng, p);
 	}
+	// C15: side-fork blocks whose parent sits 1..3 blocks below the trunk tip and which are refused
+	// BEFORE apply_block (immature coinbase, double spend, bad sums): the extension that handles them
+	// only rewinds
+	let mut near_tip_invalid: Vec<usize> = vec![];
+	for below in 1..=3usize {
+		if trunk.len() > below + 1 {
+			let p = trunk[trunk.len() - 1 - below];
+			for k in [2u64, 0, 20] {
+				if let Some(id) = g.add_invalid_kind(rng, p, k) {
+					near_tip_invalid.push(id);
+				}
+			}
+		}
+	}
 	g.describe_new(out);
 
 	let valid = g.valid.clone();
@@ -721,12 +789,31 @@ fn run_history(out: &mut Out, rng: &mut Rng, work: &str, hist: usize, big: bool)
 	// --- subjects ---
 	let nsub = if big { 6 } else { 4 };
 	let mut finals: Vec<(String, String, String, bool)> = vec![]; // (name, obs, roots, complete)
-	for si in 0..nsub {
+	// the last subject is the C15 one: creation order; whenever the head is on the trunk, the refused
+	// side-fork blocks rooted 1..3 blocks below it are offered (and discarded extensions run after
+	// every event, as on every subject)
+	for si in 0..nsub + 1 {
 		let name = format!("s{}", si);
 		let twin_name = format!("t{}", si);
 		let mut evs: Vec<Ev> = vec![];
 		let with_invalid = si >= 1;
+		let c15_subject = si == nsub;
 		match si {
+			_ if c15_subject => {
+				for i in &valid {
+					evs.push(Ev::Blk(*i));
+					if trunk.contains(i) {
+						let hgt = kit.blks[*i].height;
+						for x in &near_tip_invalid {
+							let ph = kit.blks[kit.blks[*x].parent.unwrap()].height;
+							if ph < hgt && ph + 3 >= hgt {
+								evs.push(Ev::Blk(*x));
+							}
+						}
+					}
+				}
+				evs.push(Ev::Reopen);
+			}
 			0 => {
 				// canonical: creation order, valid only
 				for i in &valid {
@@ -754,7 +841,7 @@ fn run_history(out: &mut Out, rng: &mut Rng, work: &str, hist: usize, big: bool)
 				}
 			}
 		}
-		if with_invalid {
+		if with_invalid && !c15_subject {
 			for i in &invalid {
 				let pos = rng.below(evs.len() as u64 + 1) as usize;
 				evs.insert(pos, Ev::Blk(*i));
@@ -844,11 +931,18 @@ fn run_history(out: &mut Out, rng: &mut Rng, work: &str, hist: usize, big: bool)
 					out.line(&format!("chain hdr {} b{}", name, i), &r);
 				}
 				Ev::Reopen => {
+					let roots_before = subj.roots();
 					let r = match reopen_rec(&mut subj) {
 						Ok(_) => "ok".to_string(),
 						Err(e) => format!("err:{}", e),
 					};
 					out.line(&format!("chain reopen {}", name), &r);
+					if r == "ok" && subj.roots() != roots_before {
+						out.raw(&format!(
+							"#ORACLE-FAIL C15 state roots (incl. the bitmap root) differ after a restart: hist={} subject={} before={} after={}",
+							hist, name, roots_before, subj.roots()
+						));
+					}
 				}
 				Ev::Compact => {
 					let r = match subj.c().compact() {
@@ -862,6 +956,13 @@ fn run_history(out: &mut Out, rng: &mut Rng, work: &str, hist: usize, big: bool)
 			out.line(&format!("chain obs {}", name), &obs);
 			// C02: every other way the node reports its unspent outputs
 			report_lines(out, &mut rrng, kit, &subj, &name, &mut g_stats);
+			// C15: the committed bitmap root against the root computed from scratch, and discarded
+			// extensions that rewind (merkle proof at an older header, txhashset_read, segmenter):
+			// no-ops for every observation
+			bitmap_oracle(out, kit, &subj, &name, "after-event", &mut g_stats);
+			if c15_subject || rrng.chance(1, 3) {
+				discarded_ops(out, &mut rrng, kit, &subj, &name, &mut g_stats);
+			}
 			if let Some((o0, r0)) = before {
 				// C06: a rejected input leaves best-chain state untouched (header head may move
 				// only for a valid header: compare head + utxo + roots)
